@@ -50,17 +50,22 @@ class SeedGen(Gen):
     """G2 with (mostly) conjunctive goals: the third-party problem grammar checks the requirements of or / imply /
     quantifiers / = against an empty requirement set, i.e. rejects them in goals (generator restriction only)."""
 
-    def __init__(self, rng, plain_goal=0.85, keep_minus=False, **opts):
+    def __init__(self, rng, plain_goal=0.85, keep_minus=False, allow_dup=False, **opts):
         Gen.__init__(self, rng, **opts)
         self.plain_goal = plain_goal
         self.keep_minus = keep_minus
+        self.allow_dup = allow_dup
 
     def num_expr(self, depth, params, vs, intonly=False, nodiv=True):
-        e = Gen.num_expr(self, depth, params, vs, intonly, nodiv)
-        if not self.keep_minus and e["op"] == "minus":
-            # the third-party grammar cannot read binary minus (its LALR table commits to the unary form)
-            return upj.E("plus", e["args"])
-        return e
+        for _ in range(12):
+            e = Gen.num_expr(self, depth, params, vs, intonly, nodiv)
+            if not self.keep_minus and e["op"] == "minus":
+                # the third-party grammar cannot read binary minus (its LALR table commits to the unary form)
+                e = upj.E("plus", e["args"])
+            # (+ x x), (* x x), (+ x (+ y x)): kept for the dedicated slice only (see repeated_operand)
+            if self.allow_dup or not repeated_operand(e):
+                return e
+        return upj.E("const", v=upj.NV(1))
 
     def problem(self):
         P = Gen.problem(self)
@@ -73,6 +78,25 @@ class SeedGen(Gen):
             P["goals"] = [self.bool_expr(2, {}, {}) for _ in range(self.r.randint(1, 2))]
             self.o = saved
         return P
+
+
+def _flat(e, op):
+    out = []
+    for a in e["args"]:
+        out += _flat(a, op) if a["op"] == op else [a]
+    return out
+
+
+def _node_dup(e):
+    ops = [repr(a) for a in _flat(e, e["op"])]
+    return len(set(ops)) < len(ops)
+
+
+def repeated_operand(e):
+    """some + / * / / / - of e has two equal operands, nested applications of one operator flattened (structure only)"""
+    if e["op"] in ("plus", "times", "minus", "div") and _node_dup(e):
+        return True
+    return any(repeated_operand(a) for a in e["args"])
 
 
 # ----------------------------------------------------------------------------------------
@@ -315,6 +339,8 @@ class Printer:
                 self.f("cmp:greater-form")
                 return "(%s %s %s)" % (">=" if op == "le" else ">", b, a)
             return "(%s %s %s)" % ("<=" if op == "le" else "<", a, b)
+        if op in ("plus", "times", "minus", "div") and _node_dup(e):
+            self.f("arith:repeated-operand")
         if op in ("plus", "times"):
             sym = "+" if op == "plus" else "*"
             parts = [self.pe(a) for a in e["args"]]
@@ -577,7 +603,7 @@ class Printer:
                     self.feats.add("init:negative-literal")
                     init.append("(not %s)" % atom)
             elif v["k"] == "n":
-                if r.random() < s["undef_num"]:
+                if r.random() < s["undef_num"] or (s.get("undef_first") and "init:numeric-fluent-without-value" not in self.feats):
                     self.feats.add("init:numeric-fluent-without-value")
                     continue
                 if not args and r.random() < s["bare"]:
@@ -605,7 +631,7 @@ class Printer:
 # ----------------------------------------------------------------------------------------
 # styles: one main slice inside the (probed) common fragment + slices around its border
 # ----------------------------------------------------------------------------------------
-def pick_style(rng, slice_):
+def pick_style(rng, slice_, i=0):
     s = default_style()
     s["req"] = rng.choice(["list", "list", "adl", "quantified"])
     s["lists"] = rng.choice(["grouped", "single", "mixed", "mixed"])
@@ -619,8 +645,9 @@ def pick_style(rng, slice_):
     s["single_and"] = rng.choice([0.0, 0.3, 1.0])
     if slice_ == "case":
         s["case"] = rng.choice(["upper", "mixed-consistent", "mixed-consistent", "inconsistent"])
-    elif slice_ == "border":
-        k = rng.choice(BORDER)
+    elif slice_ in ("border", "known"):
+        kinds = BORDER if slice_ == "border" else KNOWN
+        k = kinds[i % len(kinds)]
         if k == "empty-pre-paren":
             s["empty_pre"] = "paren"
         elif k == "empty-pre-omit":
@@ -648,8 +675,11 @@ def pick_style(rng, slice_):
     return s
 
 
-BORDER = ["empty-pre-paren", "empty-pre-paren", "empty-pre-omit", "untyped", "obj-param", "undef-num", "undef-num", "neg-literal", "neg-init",
-          "adl-only", "metric-bare", "bare-in-eq", "binary-minus", "rich-goal"]
+# surface forms at the border of the common fragment: (mostly) rejected by one of the readers
+BORDER = ["empty-pre-omit", "untyped", "obj-param", "neg-literal", "neg-init", "adl-only", "metric-bare", "bare-in-eq", "binary-minus", "rich-goal"]
+# surface forms inside the common fragment on which the two readers are known to disagree (one dedicated kind each, so that
+# the main slices stay free of them and a new disagreement is not hidden behind a known signature)
+KNOWN = ["empty-pre-paren", "undef-num", "dup-operand", "dec"]
 
 
 def _map_consts(P, fn):
@@ -683,12 +713,12 @@ def make_texts(rng, counts):
     out = []
     for slice_, n in counts:
         for i in range(n):
-            numeric = slice_ in ("num", "dec") or (slice_ in ("case", "border") and rng.random() < 0.5)
-            style = pick_style(rng, slice_)
+            numeric = slice_ == "num" or (slice_ in ("case", "border", "known") and rng.random() < 0.5)
+            style = pick_style(rng, slice_, i)
             b = style.get("border", "")
-            if b in ("undef-num", "neg-literal", "binary-minus", "bare-in-eq", "metric-bare"):
+            if b in ("undef-num", "neg-literal", "binary-minus", "bare-in-eq", "metric-bare", "dup-operand", "dec"):
                 numeric = True
-            g = SeedGen(rng, plain_goal=0.0 if b == "rich-goal" else 1.0, keep_minus=b == "binary-minus",
+            g = SeedGen(rng, plain_goal=0.0 if b == "rich-goal" else 1.0, keep_minus=b == "binary-minus", allow_dup=b == "dup-operand",
                         **dict(MASK, numeric=numeric, metric="any" if (rng.random() < 0.6 or b == "metric-bare") else None))
             P = g.problem()
             if style["untyped"] and len(P["types"]) != 1:
@@ -699,17 +729,38 @@ def make_texts(rng, counts):
                 P["fluents"] = [dict(f, default=upj.NV(abs(Fraction(f["default"]["n"], f["default"]["d"]))) if f["default"]["k"] == "n" else f["default"])
                                 for f in P["fluents"]]
                 P["init"] = [dict(x, v=upj.NV(abs(Fraction(x["v"]["n"], x["v"]["d"]))) if x["v"]["k"] == "n" else x["v"]) for x in P["init"]]
-            if slice_ == "dec":
+            if b == "dec":
                 # decimals that are not dyadic rationals
                 table = {Fraction(1, 2): Fraction(1, 10), Fraction(3, 2): Fraction(3, 10), Fraction(5, 2): Fraction(7, 5), Fraction(2): Fraction(1, 5)}
                 P = _map_consts(P, lambda c: table.get(c, c) if c >= 0 else -table.get(-c, -c))
+                if not any(Fraction(x["s"]).denominator in (5, 10) for x in _consts(P)):
+                    nums = [j for j, x in enumerate(P["init"]) if x["v"]["k"] == "n"]
+                    if not nums:
+                        continue
+                    P["init"] = list(P["init"])
+                    P["init"][nums[0]] = dict(P["init"][nums[0]], v=upj.NV(Fraction(1, 10)))
+            if b == "dup-operand":
+                # at least one (+ v v) / (* v v)
+                spots = [(ai, ei) for ai, a in enumerate(P["actions"]) for ei, ef in enumerate(a["effects"])
+                         if g.fluent(ef["f"]["name"])["type"]["k"] != "bool"]
+                if not spots:
+                    continue
+                ai, ei = rng.choice(spots)
+                acts = [dict(a, effects=list(a["effects"])) for a in P["actions"]]
+                v = acts[ai]["effects"][ei]["v"]
+                acts[ai]["effects"][ei] = dict(acts[ai]["effects"][ei], v=upj.E(rng.choice(["plus", "times"]), [v, v]))
+                P["actions"] = acts
+            if b == "empty-pre-paren":
+                P["actions"] = [dict(a, pre=[]) if j == 0 else a for j, a in enumerate(P["actions"])]
+            if b == "undef-num":
+                style["undef_first"] = True
             pr = Printer(P, rng, style)
             try:
                 dom = pr.domain()
                 prob = pr.problem()
             except ValueError:
                 continue
-            out.append((slice_, P, dom, prob, sorted(pr.feats), {a: sorted(fs) for a, fs in pr.afeats.items()}))
+            out.append((slice_ + (":" + b if b else ""), P, dom, prob, sorted(pr.feats), {a: sorted(fs) for a, fs in pr.afeats.items()}))
     return out
 
 
@@ -825,14 +876,14 @@ def _has_case(P):
     return s != s.lower()
 
 
-def _safe_depth(problem, P, D, cap=400):
+def _safe_depth(problem, P, D, maxga=4000, cap=400):
     """largest depth <= D to which every value reachable in A stays within TLC's integer range (a guard of the
     machinery computed with the simulator, not a verdict)"""
     from unified_planning.engines.sequential_simulator import UPSequentialSimulator
 
     keys = upj.keys_of(P)
     gas = ground_actions(P)
-    if len(gas) > 4000 or len(keys) > 1500:
+    if len(gas) > maxga or len(keys) > 1500:
         return -1
     try:
         sim = UPSequentialSimulator(problem, error_on_failed_checks=False)
@@ -875,7 +926,7 @@ def _safe_depth(problem, P, D, cap=400):
         return 0
 
 
-def read_both(dom_file, prob_file, D, limit=30):
+def read_both(dom_file, prob_file, D, maxga=4000, limit=60):
     """both readers on one pair of files -> {reader: record}"""
     from unified_planning.io import PDDLReader
 
@@ -913,7 +964,7 @@ def read_both(dom_file, prob_file, D, limit=30):
             if R["P"] is not None and rname == "up":
                 try:
                     with time_limit(120):
-                        R["safe"] = _safe_depth(q, raw, D)
+                        R["safe"] = _safe_depth(q, raw, D, maxga)
                 except ImplTimeout:
                     R["safe"] = 0
         out[rname] = R
@@ -921,7 +972,7 @@ def read_both(dom_file, prob_file, D, limit=30):
 
 
 def worker(job):
-    cid, slice_, dom, prob, workdir, D = job
+    cid, slice_, dom, prob, workdir, D, maxga = job
     rec = {"cid": cid, "skip": ""}
     try:
         if slice_ == "shipped":
@@ -933,7 +984,7 @@ def worker(job):
                 fh.write(dom)
             with open(pf, "w") as fh:
                 fh.write(prob)
-        rec["reads"] = read_both(df, pf, D)
+        rec["reads"] = read_both(df, pf, D, maxga)
     except Exception as ex:
         rec["skip"] = "HARNESS:" + _exc(ex)
         rec["detail"] = traceback.format_exc()[-1500:]
@@ -986,7 +1037,7 @@ def judge_bisim(ctx, recs, todo, D):
         if rec["cid"] not in todo:
             continue
         up, ai = rec["reads"]["up"], rec["reads"]["ai"]
-        d = min(D, up["safe"])
+        d = D if up["safe"] >= D else min(up["safe"], 0 if ctx.quick else 1)
         groups.setdefault(d, []).append({"cid": rec["cid"], "A": up["P"], "B": ai["P"], "akeys": upj.keys_of(up["P"]),
                                          "bkeys": upj.keys_of(ai["P"]), "depth": d, "length_as_unit_costs": True,
                                          "final_value_metric": True})
@@ -1014,32 +1065,52 @@ def judge_bisim(ctx, recs, todo, D):
     return fails, n
 
 
-# clause -> the surface-form features a signature is keyed on (when present in the text / in the action)
-RELEVANT = {
-    "applicability": ["pre:()", "pre:(and)", "type:object-parameter", "type:untyped-parameter"],
-    "initial-state-differs": ["init:numeric-fluent-without-value", "init:negative-literal"],
-    "numeric-literal-differs": ["num:non-dyadic-decimal"],
-    "successor-differs": ["num:non-dyadic-decimal", "init:numeric-fluent-without-value"],
-    "goal-verdict": ["num:non-dyadic-decimal", "init:numeric-fluent-without-value"],
-    "objects-differ": ["type:object-explicit", "types:none"],
-    "metric-kind-differs": ["action-costs"],
-}
+# clause family -> the surface-form features a signature is keyed on (when present in the text; for the clauses about one
+# action: in the text-level features or in that action's features)
+DIVERGENT = ["pre:()", "arith:repeated-operand", "num:non-dyadic-decimal", "init:numeric-fluent-without-value"]
+ACTION_CLAUSES = ("applicability", "successor-differs", "action-cost-differs")
 
 
-def signature(clause, feats, afeats):
-    key = next((k for k in RELEVANT if clause.startswith(k)), None)
-    keep = [f for f in RELEVANT.get(key, []) if f in feats or f in afeats]
+def signature(clause, feats, afeats, action):
+    if clause.startswith(ACTION_CLAUSES):
+        have = set(feats) | set(afeats.get(action, []))
+    else:
+        have = set(feats)
+        for fs in afeats.values():
+            have |= set(fs)
+    keep = [f for f in DIVERGENT if f in have]
     return "%s%s" % (clause, ("|" + ",".join(keep)) if keep else "")
 
 
+def text_features(dom_file, prob_file):
+    """syntactic features of a shipped pair (the same names the printer records for its own texts)"""
+    fs = {"shipped"}
+    try:
+        txt = open(dom_file, encoding="utf-8-sig").read() + "\n" + open(prob_file, encoding="utf-8-sig").read()
+    except OSError:
+        return sorted(fs)
+    txt = re.sub(r";[^\n]*", "", txt)
+    for m in re.finditer(r"(?<![\w.-])(\d+\.\d+)(?![\w.])", txt):
+        d = Fraction(m.group(1)).denominator
+        if d & (d - 1):
+            fs.add("num:non-dyadic-decimal")
+    if re.search(r":precondition\s*\(\s*\)", txt):
+        fs.add("pre:()")
+    return sorted(fs)
+
+
 def run(ctx):
+    import time
+    t0 = time.time()
+    phases = {}
     q = ctx.quick
-    counts = [("cls", 26), ("num", 26), ("case", 8), ("border", 16), ("dec", 6)] if q else \
-             [("cls", 500), ("num", 600), ("case", 120), ("border", 260), ("dec", 80)]
+    counts = [("cls", 22), ("num", 26), ("case", 8), ("border", 10), ("known", 8)] if q else \
+             [("cls", 500), ("num", 600), ("case", 120), ("border", 200), ("known", 160)]
     D = 3 if q else 4
     texts = make_texts(ctx.rng, counts)
     work = ctx.sub("texts")
-    jobs = [(i + 1, sl, dom, prob, work, D) for i, (sl, P, dom, prob, feats, af) in enumerate(texts)]
+    maxga = 300 if q else 4000
+    jobs = [(i + 1, sl, dom, prob, work, D, maxga) for i, (sl, P, dom, prob, feats, af) in enumerate(texts)]
     meta = {i + 1: {"slice": sl, "seed": P, "domain_pddl": dom, "problem_pddl": prob, "features": feats, "action_features": af}
             for i, (sl, P, dom, prob, feats, af) in enumerate(texts)}
     ship = shipped_pairs()
@@ -1053,21 +1124,25 @@ def run(ctx):
         ship = keep
     for dom, pr in ship:
         cid = len(jobs) + 1
-        jobs.append((cid, "shipped", dom, pr, work, 1))
-        meta[cid] = {"slice": "shipped", "seed": None, "domain_pddl": dom, "problem_pddl": pr, "features": ["shipped"], "action_features": {}}
+        jobs.append((cid, "shipped", dom, pr, work, 1, maxga))
+        meta[cid] = {"slice": "shipped", "seed": None, "domain_pddl": dom, "problem_pddl": pr, "features": text_features(dom, pr), "action_features": {}}
+    phases["generate"] = round(time.time() - t0, 1)
     with Pool(NPROC, maxtasksperchild=40) as pool:
         recs = pool.map(worker, jobs, chunksize=2)
+    phases["read"] = round(time.time() - t0, 1)
     for r in recs:
         if r["skip"]:
             raise MachineryError("driver error: %s" % r.get("detail"))
     todo, fails1, tallies = judge_fragment(ctx, recs)
+    phases["fragment"] = round(time.time() - t0, 1)
     fails2, nb = judge_bisim(ctx, recs, todo, D) if todo else ([], 0)
+    phases["bisim"] = round(time.time() - t0, 1)
+    ctx.cov["phase_end_s"] = phases
     by = {r["cid"]: r for r in recs}
     for (cid, clause, detail) in fails1 + fails2:
         m = meta[cid]
         rec = by[cid]
-        af = m["action_features"].get(detail, []) + m["action_features"].get(str(detail).upper(), [])
-        sig = signature(clause, m["features"], af)
+        sig = signature(clause, m["features"], m["action_features"], detail)
         ctx.violation(sig, "C21 readers disagree: %s %s" % (clause, detail),
                       {"clause": clause, "detail": detail, "slice": m["slice"], "features": m["features"], "action_features": m["action_features"],
                        "domain_pddl": m["domain_pddl"], "problem_pddl": m["problem_pddl"],
@@ -1098,7 +1173,9 @@ def run(ctx):
     ctx.cov["traces_validated_against_impl"] = nb
     ctx.cov["distinct_nontrivial"] = nb
     ctx.cov["unspecified"] += sum(1 for ts in tallies.values() if "unjudgeable-too-large" in ts)
-    ctx.cov["texts"] = {sl: sum(1 for m in meta.values() if m["slice"] == sl) for sl in ("cls", "num", "case", "border", "dec", "shipped")}
+    ctx.cov["texts"] = {}
+    for m in meta.values():
+        ctx.cov["texts"][m["slice"]] = ctx.cov["texts"].get(m["slice"], 0) + 1
     ctx.cov["accepted_by"] = per_slice
     ctx.cov["bisimulated_pairs"] = nb
     ctx.cov["tallies"] = tally
